@@ -44,6 +44,7 @@ package logic
 //@ func (*CatchEventSatisfier).Satisfy
 //@   prop C14
 //@   flag paths
+//@   flag countresult
 //@   requires cesShape(satisfier)
 //@   requires cesDistinct(satisfier)
 //@   requires cesNoneFull(satisfier)
@@ -91,8 +92,10 @@ package logic
 //@ func NewCatchEventSatisfier
 //@   prop C14
 //@   ensures [constructor-establishes-the-invariant] result != nil && cesShape(result) && len(result.chains) == 0
+//@   ensures [registers-nothing] count(Call, code("event|ISource.RegisterEventConsumer")) == old(count(Call, code("event|ISource.RegisterEventConsumer")))
 //@   loop 1 range catchEventElement.EventDefinitions()
 //@     invariant satisfier != nil && fresh(satisfier) && len(satisfier.chains) == 0 && satisfier.len == len(satisfier.eventDefinitionInstances)
+//@     invariant count(Call, code("event|ISource.RegisterEventConsumer")) == old(count(Call, code("event|ISource.RegisterEventConsumer")))
 
 // Representation invariant of a throw-event satisfier (the same algorithm, always parallel) (parallel-multiple bookkeeping):
 //  - every chain is a distinct bit set of length len, none is full, and (if any chain exists) some
